@@ -47,7 +47,7 @@ Proof. reflexivity. Qed.
 (* where is available for lists and sets of every element kind of the model (fixes/C10-3) *)
 Lemma where_rows :
   forallb (fun k => match assoc key3_eqb (OpWHERE, KList, k) expr_functions with Some G_whereList => true | _ => false end)
-          [KNoArg; KBool; KInt; KString; KList; KSet; KMap]
+          [KNoArg; KBool; KInt; KFloat; KString; KList; KSet; KMap; KNull]
   && forallb (fun k => match assoc key3_eqb (OpWHERE, KSet, k) expr_functions with Some G_whereSet => true | _ => false end)
-          [KNoArg; KBool; KInt; KString; KList; KSet; KMap] = true.
+          [KNoArg; KBool; KInt; KFloat; KString; KList; KSet; KMap; KNull] = true.
 Proof. reflexivity. Qed.
